@@ -69,10 +69,11 @@ def cases(tier, seed):
             hs = K.gen_predictors(r, len(d["y"]))
             hs.append([fs(Fraction(r.randint(-4, 12), 8)) for _ in d["y"]])      # outside [0,1] too
             keys = "ok"
-            if r.chance(1, 4):                   # constructor validation: cost dicts that must be rejected (or not)
-                costs, keys = r.choice([(("0", "0"), "ok"), (("-1", "1"), "ok"), (("1", "-1/2"), "ok"),
-                                        (("-1/4", "-1/4"), "ok"), (("1", "1"), "missing"), (("1", "2"), "extra"),
-                                        (("0", "1/1024"), "ok"), (("0", "0"), "extra")])
+            j = i // 10
+            if j % 3 == 2:                       # constructor validation, in rotation: cost dicts on the boundary
+                costs, keys = [(("0", "0"), "ok"), (("-1", "1"), "ok"), (("1", "-1/2"), "ok"),
+                               (("-1/4", "-1/4"), "ok"), (("1", "1"), "missing"), (("1", "2"), "extra"),
+                               (("0", "1/1024"), "ok"), (("0", "0"), "extra")][(j // 3) % 8]
             out.append({"fam": "er", "fp": None if costs is None else costs[0],
                         "fn": None if costs is None else costs[1], "keys": keys, **d, "hs": hs})
         elif t == 9:
